@@ -475,6 +475,40 @@ def root(e):
     return e
 
 
+def alts(e):
+    """alternatives of a phi (or the expression itself)"""
+    e = strip(e)
+    if e[0] == "phi":
+        out = []
+        for x in e[1]:
+            out.extend(alts(x))
+        return out
+    return [e]
+
+
+def unupd(e):
+    """base value under field updates"""
+    e = strip(e)
+    while e[0] == "upd":
+        e = strip(e[1])
+    return e
+
+
+def field_of(e, name):
+    """value of field `name` of a struct-valued origin expression, honouring updates; None if unknown"""
+    e = strip(e)
+    if e[0] == "upd":
+        if e[2] and e[2][0] == ("field", name):
+            if len(e[2]) == 1:
+                return e[3]
+            base = field_of(e[1], name)
+            return ("upd", base, e[2][1:], e[3]) if base is not None else None
+        return field_of(e[1], name)
+    if e[0] == "agg":
+        return dict(e[3]).get(name)
+    return ("field", e, name)
+
+
 def strip(e):
     """remove value-preserving wrappers: okval/some/conv/cast-widening/try"""
     while isinstance(e, tuple) and e and e[0] in ("okval", "some", "conv", "try"):
